@@ -1006,6 +1006,18 @@ impl PipeEngine {
             7 => root!(ByteBuf, "root binary"),
             8 => root!(Option<BTreeMap<String, Vec<Option<ByteBuf>>>>, "root optional<map<string,list<optional<binary>>>>"),
             9 => root!(Option<Vec<SafeLong>>, "root optional<list<safelong>>"),
+            11 => match ctx.draw(9) {
+                // bare leaves of every kind at the root
+                0 => root!(Uuid, "root uuid"),
+                1 => root!(Option<Uuid>, "root optional<uuid>"),
+                2 => root!(ResourceIdentifier, "root rid"),
+                3 => root!(BearerToken, "root bearertoken"),
+                4 => root!(DateTime<Utc>, "root datetime"),
+                5 => root!(SafeLong, "root safelong"),
+                6 => root!(String, "root string"),
+                7 => root!(Color, "root enum"),
+                _ => root!(bool, "root boolean"),
+            },
             10 => match ctx.draw(6) {
                 0 => root!(Nt<D>, "root newtype(double)"),
                 1 => root!(Nt<ByteBuf>, "root newtype(binary)"),
